@@ -164,6 +164,8 @@ type chain struct {
 	payloads  [][]byte
 	sendErr   error
 	polls     []poll
+	slot      time.Duration
+	pollSlots []int
 	pollCount int
 	pollTimes []time.Duration
 	start     time.Time
@@ -177,6 +179,12 @@ func (b *chain) GetSeqno(ctx context.Context, a ton.AccountID) (uint32, error) {
 	i := b.pollCount
 	b.pollCount++
 	b.pollTimes = append(b.pollTimes, vtime.Since(b.start))
+	// the script is a function of (virtual) time: slot k covers [k*slot, (k+1)*slot); a caller that polls once per
+	// slot sees polls[0], polls[1], ... and a caller that polls faster sees the same answer again
+	if b.slot > 0 {
+		i = int(vtime.Since(b.start) / b.slot)
+	}
+	b.pollSlots = append(b.pollSlots, i)
 	if i < len(b.polls) {
 		return b.polls[i].seqno, b.polls[i].err
 	}
@@ -473,6 +481,7 @@ func harnesses(r *fw.Run) []fw.HarnessSpec {
 			start := time.Unix(1_700_000_000, 0)
 			vtime.Reset(start)
 			bc.start = start
+			bc.slot = waiting / 10
 			body := tb.NewCell()
 			_, err = w.RawSendV2(context.Background(), sent, start.Add(time.Minute), []wallet.RawMessage{{Message: body, Mode: 3}}, nil, waiting)
 			elapsed := vtime.Since(start)
@@ -493,8 +502,8 @@ func harnesses(r *fw.Run) []fw.HarnessSpec {
 			}
 			// which polls happened before the deadline, and did one of them confirm?
 			confirmed := false
-			for i := 0; i < bc.pollCount && i < len(polls); i++ {
-				if bc.pollTimes[i] < waiting && polls[i].err == nil && polls[i].seqno > sent {
+			for i := 0; i < bc.pollCount; i++ {
+				if k := bc.pollSlots[i]; k < len(polls) && bc.pollTimes[i] < waiting && polls[k].err == nil && polls[k].seqno > sent {
 					confirmed = true
 				}
 			}
